@@ -17,7 +17,7 @@
    [wsamvar_def] are the textbook weighted sums (top of WeightedProofs.v). *)
 From Coq Require Import ZArith QArith List.
 From PV Require Import Stats.Num Stats.Tally Stats.TallyProofs Stats.Weighted Stats.WeightedProofs
-                       Stats.Timestamp Stats.TimestampProofs.
+                       Stats.Timestamp Stats.TimestampProofs Stats.GenericTotal.
 Import ListNotations.
 Local Open Scope Q_scope.
 
@@ -216,6 +216,38 @@ Theorem C10_pinned_weighted_stdev_total_refuted :
     gw_stdev NumF true (wrun_pinned ops) = Raise ValueError.
 Proof. exact pinned_weighted_stdev_raises. Qed.
 Print Assumptions C10_pinned_weighted_stdev_total_refuted.
+
+(* ---------------------------------------------------------------------- *)
+(* 7. Why the repaired code cannot raise in binary64 either: for EVERY
+      arithmetic instance satisfying the elementary order laws [NumLaws]
+      (proved for the rationals; IEEE-754 sign rules and exactness of small
+      integers for binary64 -- assumed, not proved), the clamped
+      weight-times-variance accumulator is never negative in any reachable
+      state, every division is guarded, and so no getter of a weighted or a
+      timestamped tally raises after any history shorter than [bound].     *)
+Theorem C10_getters_total_for_any_lawful_arithmetic :
+  forall (N : Num) (bound : Z), NumLaws N bound ->
+  forall ops : list (wop N), (Z.of_nat (length ops) < bound)%Z ->
+    let s := wrun N (winit N) ops in
+    no_raise (gw_mean N s) /\
+    (forall b, no_raise (gw_variance N b s)) /\
+    (forall b, no_raise (gw_stdev N b s)).
+Proof. exact weighted_getters_total_any_arithmetic. Qed.
+Print Assumptions C10_getters_total_for_any_lawful_arithmetic.
+
+Theorem C10_timestamp_getters_total_for_any_lawful_arithmetic :
+  forall (N : Num) (bound : Z), NumLaws N bound ->
+  forall ops : list (tsop N), (Z.of_nat (length ops) < bound)%Z ->
+    let w := ts_w (tsrun N (tsinit N) ops) in
+    no_raise (gw_mean N w) /\
+    (forall b, no_raise (gw_variance N b w)) /\
+    (forall b, no_raise (gw_stdev N b w)).
+Proof. exact timestamp_getters_total_any_arithmetic. Qed.
+Print Assumptions C10_timestamp_getters_total_for_any_lawful_arithmetic.
+
+Theorem C10_laws_hold_in_exact_arithmetic : forall sq bound, NumLaws (NumQ sq) bound.
+Proof. exact NumQ_laws. Qed.
+Print Assumptions C10_laws_hold_in_exact_arithmetic.
 
 (* ---------------------------------------------------------------------- *)
 (* Non-vacuity *)
